@@ -9,7 +9,8 @@ EXPLANATION = ("C06: every message in push.c is on every path in exactly one pla
                "transport send failed or the peer sent garbage; a ready pipe is fed from the buffer first and from a blocked "
                "sender only when the buffer is empty (order), and a blocked sender's message refills the buffer; a sender is "
                "parked only after the ready list was empty and the buffer refused the message; a pull pipe has one "
-               "outstanding receive, re-armed only when its held message was handed up, and fini frees a held message.")
+               "outstanding receive, re-armed only when its held message was handed up, and fini frees a held message."
+               " Also: protocol state is written under the socket lock at every site (C03.O7 run here as R5) and a resized lmq wraps its cursors with the new mask (C18.R8 as R6).")
 
 
 def rule_r1(ctx):
